@@ -119,7 +119,9 @@ impl Read for MemDev {
         let mut s = self.st.borrow_mut();
         let len = s.data.len() as u64;
         let n = if self.pos >= len { 0 } else { want.min((len - self.pos) as usize) };
-        buf[..n].copy_from_slice(&s.data[self.pos as usize..self.pos as usize + n]);
+        if n > 0 {
+            buf[..n].copy_from_slice(&s.data[self.pos as usize..self.pos as usize + n]);
+        }
         if s.record {
             let off = self.pos;
             s.log.push(DevOp { kind: OpKind::Read, offset: off, data: Vec::new(), len: n });
